@@ -238,7 +238,7 @@ CREATE OR REPLACE MACRO vtl_interval_to_period(interval_str VARCHAR) AS (
                  AND MONTH(d1) IN (1, 4, 7, 10)
                  AND d2 = LAST_DAY(d1 + INTERVAL 2 MONTH)
             THEN CAST(YEAR(d1) AS VARCHAR) || '-Q'
-                 || CAST(((MONTH(d1) - 1) / 3 + 1) AS VARCHAR)
+                 || CAST(((MONTH(d1) - 1) // 3 + 1) AS VARCHAR)
             -- Month
             WHEN DAY(d1) = 1 AND d2 = LAST_DAY(d1)
                  AND YEAR(d1) = YEAR(d2)
